@@ -88,18 +88,24 @@ def check(name, tier):
     d = os.path.join(SEEDED, name)
     meta = json.load(open(os.path.join(d, "meta.json")))
     prop = meta["property"]
-    assert sh(["git", "-C", "/repo", "status", "--porcelain"]).stdout.strip() == b"", "/repo not clean"
-    ap = sh(["git", "-C", "/repo", "apply", os.path.join(d, "patch.diff")])
+    # VERIF_SEEDED_REPO: a frozen scratch worktree of /repo's HEAD to patch instead of /repo itself (used while something
+    # else needs /repo unchanged); the check then reads <worktree>/src through NUNAVUT_SRC
+    repo = os.environ.get("VERIF_SEEDED_REPO", "/repo")
+    assert sh(["git", "-C", repo, "status", "--porcelain"]).stdout.strip() == b"", "%s not clean" % repo
+    assert sh(["git", "-C", repo, "rev-parse", "HEAD"]).stdout == sh(["git", "-C", "/repo", "rev-parse", "HEAD"]).stdout, "%s is not at /repo's HEAD" % repo
+    ap = sh(["git", "-C", repo, "apply", os.path.join(d, "patch.diff")])
     assert ap.returncode == 0, ap.stdout
     t0 = time.time()
     try:
         env = dict(os.environ)
         env.update({"VERIF_NO_EVIDENCE": "1", "VERIF_QUIET": "1", "VERIF_MINIMISE_RUNS": os.environ.get("VERIF_MINIMISE_RUNS", "40")})
+        if repo != "/repo":
+            env["NUNAVUT_SRC"] = os.path.join(repo, "src")
         p = sh([os.path.join(HERE, "check"), prop, "--tier", tier], env=env, cwd=HERE, timeout=3600)
         out = p.stdout.decode("utf-8", "replace")
     finally:
-        sh(["git", "-C", "/repo", "checkout", "--", "."])
-        sh(["git", "-C", "/repo", "clean", "-fdq", "src"])
+        sh(["git", "-C", repo, "checkout", "--", "."])
+        sh(["git", "-C", repo, "clean", "-fdq", "src"])
     sigs = sorted({ln.split("signature: ")[1].strip() for ln in out.split("\n") if "signature: " in ln})
     replays = [ln.split("replay=")[1].strip() for ln in out.split("\n") if ln.startswith("VIOLATION ") and "replay=" in ln]
     kept = []
@@ -113,7 +119,7 @@ def check(name, tier):
             os.remove(r)
     verdict = "DETECTED" if p.returncode == 1 else "MISSED" if p.returncode == 0 else "ERROR rc=%d" % p.returncode
     print("%-34s %s %-8s %4.0fs %s" % (name, prop, verdict, time.time() - t0, "; ".join(sigs)[:200]))
-    meta.setdefault("checks", {})[tier] = {"exit": p.returncode, "verdict": verdict, "signatures": sigs, "seconds": round(time.time() - t0, 1), "replays": kept, "command": "git -C /repo apply seeded/%s/patch.diff; ./check %s --tier %s; git -C /repo checkout -- ." % (name, prop, tier)}
+    meta.setdefault("checks", {})[tier] = {"exit": p.returncode, "verdict": verdict, "signatures": sigs, "seconds": round(time.time() - t0, 1), "replays": kept, "command": ("git -C /repo apply seeded/%s/patch.diff; ./check %s --tier %s; git -C /repo checkout -- ." if repo == "/repo" else "git -C <scratch worktree of /repo HEAD> apply seeded/%s/patch.diff; NUNAVUT_SRC=<worktree>/src ./check %s --tier %s; git -C <worktree> checkout -- .") % (name, prop, tier)}
     with open(os.path.join(d, "meta.json"), "w", encoding="utf-8") as f:
         json.dump(meta, f, indent=1)
     return 0 if p.returncode == 1 else 1
@@ -127,6 +133,14 @@ if __name__ == "__main__":
         sys.exit(check(sys.argv[2], tier))
     if sys.argv[1] == "check-all":
         rc = 0
+        start = sys.argv[sys.argv.index("--from") + 1] if "--from" in sys.argv else ""
         for m in sorted(glob.glob(os.path.join(SEEDED, "*", "meta.json"))):
-            rc |= check(os.path.basename(os.path.dirname(m)), sys.argv[2] if len(sys.argv) > 2 else "quick")
+            name = os.path.basename(os.path.dirname(m))
+            if name < start:
+                continue
+            try:
+                rc |= check(name, sys.argv[2] if len(sys.argv) > 2 else "quick")
+            except AssertionError as ex:
+                print("%-34s NOT-RUN %s" % (name, str(ex)[:200]))
+                rc |= 2
         sys.exit(rc)
